@@ -57,7 +57,18 @@ RULE = ("model tie: (1) Metadata(metafile)._map_pieces() -> per piece the (full,
         "side, a small file before the big one, candidates above 1 MiB shorter than a 2 / 4 MiB piece and of a piece and a half, two "
         "big candidates inside one piece, single files; each shape through a v1 metafile (creator, reference encoder) AND a v2 / hybrid "
         "metafile (TorrentFileV2, TorrentFileHybrid, TorrentAssembler, reference encoder -- roots not computed by the tool's own "
-        "hasher), random shapes k MiB + r, batches with small torrents.  A case is non-trivial when it is distinct and copies at least "
+        "hasher), random shapes k MiB + r, batches with small torrents.  PATH ARGUMENTS (profile 'paths'; payloads, decoys and judgement as "
+        "everywhere): two or three SIBLING search directories one of whose names is a string prefix of another ('parts' / 'parts2' / "
+        "'parts2.old', 'disk1' / 'disk10', 'seed' / 'seed.old', given in any order), mostly with every intact copy in a directory whose name "
+        "extends a sibling's; the destination spelled './../../x/y' and '../../x/y' from inside a search directory, './../x/y' from the parent "
+        "of the search directories, './.hidden', './../.hidden' from the folder of the metafiles, './x/y/', 'x/./y', './/x/y', absolute with "
+        "a '..' segment or a trailing separator, a sibling of the search directories whose name extends a search directory's name; API and "
+        "command line: the directory the shell would resolve must hold the complete torrent.  IN PLACE (profile 'inplace'): the destination "
+        "EQUALS or CONTAINS a search directory ('-c . -d .' from inside it, '../dest', absolute, trailing separators; the search directory "
+        "being the destination, the payload directory dest/name, or the destination plus a second directory) and some files are already "
+        "intact at their final place -- v1 / v2 / hybrid; the largest file in place and a small neighbour sharing its only / its last piece "
+        "elsewhere in the search tree, the small file in place and the big one elsewhere, three files in two directories: every file must "
+        "be restored (files that lay in the destination before the rebuild are not counted as unexpected).  A case is non-trivial when it is distinct and copies at least "
         "one non-empty file.")
 TRUSTED_BASE = rc.TRUSTED_BASE
 ASSUMPTIONS = ["no symbolic links or special files in search directories or destination",
@@ -107,7 +118,8 @@ def assess(case, reply):
     if bad:
         out.append(("counted-file-absent", "every counted file exists in the destination", bad[:6]))
     expected = {os.path.join(*e["rel"]) for t in case["torrents"] for e in t["layout"] if e["rel"]}
-    extra = [k for k, v in rc.snapshot(dest).items() if v[0] != "d" and k not in expected]
+    # (profile 'inplace': the destination is a search directory; what lay there before the rebuild is not the rebuild's doing)
+    extra = [k for k, v in rc.snapshot(dest).items() if v[0] != "d" and k not in expected and k not in case.get("preexisting", ())]
     if extra:
         out.append(("unexpected-file", "only files of the torrents in the destination", extra[:6]))
     ev = rc.outside_events(reply, dest)
@@ -196,7 +208,8 @@ def e2e(ctx):
     plan = [("c13", None)] * (64 if quick else 1100) + [("d27", None)] * (8 if quick else 80) + [("d28", None)] * (6 if quick else 60) + \
         [("samename", None)] * (4 if quick else 40) + [("resume", None)] * (14 if quick else 200) + \
         [("dotted", None)] * (8 if quick else 80) + [("boundary", None)] * (6 if quick else 80) + \
-        [("namesake", None)] * (10 if quick else 120) + [("utf8pieces", None)] * (6 if quick else 48)
+        [("namesake", None)] * (10 if quick else 120) + [("utf8pieces", None)] * (6 if quick else 48) + \
+        [("paths", None)] * (16 if quick else 200) + [("inplace", None)] * (12 if quick else 150)
     plan = [(p, "cli-proc" if (p == "utf8pieces" and i % 6 == 1) or (p == "c13" and i % (21 if quick else 40) == 5) or (p == "resume" and i % (5 if quick else 10) == 2) else None)
             for i, (p, _) in enumerate(plan)]
     # payloads at SCALE (rebuild_common.scale_plan): every aimed shape through a v1 and through a v2 / hybrid metafile, random
